@@ -54,6 +54,9 @@ def run(tier):
     preg = tlc.run_tlc("MC_PagerProto", cfg="MC_PagerProto_regression", workers=1, coverage=False, timeout=300)
     if preg.violated != "NoEarlyExit":
         raise core.ToolError("MC_PagerProto_regression (exit on the first failed write) did not violate NoEarlyExit")
+    pshort = tlc.run_tlc("MC_PagerProto", cfg="MC_PagerProto_regression_short", workers=1, coverage=False, timeout=300)
+    if pshort.violated != "AllDelivered":
+        raise core.ToolError("MC_PagerProto_regression_short (the rest of a short write is dropped) did not violate AllDelivered")
     # a wrapped command that complains a lot (4 000 lines, far more than a pipe holds, on stderr before it writes to stdout): the
     # scenarios in which delta runs a command and the consumer stays are run a second time with such a command
     n_plain = len(scenarios)
